@@ -547,7 +547,8 @@ fn forced(args: &[String]) -> Value {
             if got != ord["out"] {
                 mismatches.push(json!({"kind": "forced", "case": case["id"], "config": case["config"], "order": order,
                     "progs": case["progs"], "init": case["init"], "got": got, "expected": ord["out"]}));
-            } else if samples.len() < 2 && order.len() >= 3 {
+            } else if samples.len() < 2 && order.len() >= 3 && order[0] != 1
+                && progs.iter().all(|p| p.iter().any(|o| o["k"] == "asg")) {
                 samples.push(json!({"threads": progs.iter().map(|p| prog_text(p)).collect::<Vec<_>>(), "forced_order": order, "outcome": got}));
             }
         }
@@ -843,6 +844,7 @@ fn record(args: &[String]) -> Value {
     let (mut n_calls, mut n_writes, mut n_panics, mut n_events) = (0u64, 0u64, 0u64, 0u64);
     let mut deadlock = Value::Null;
     let mut samples = vec![];
+    let mut contended_histories = 0u64;
     let mut contended = 0u64; // calls whose [start, end] window overlaps another thread's call on the same cell
     let mut kinds: BTreeMap<String, u64> = BTreeMap::new();
     let total = n_small + n_big;
@@ -892,12 +894,16 @@ fn record(args: &[String]) -> Value {
             let mut spans: Vec<(u64, u64, usize, usize)> = out.calls.iter().map(|c| (c.start, c.end, c.t, c.plan.cell)).collect();
             spans.sort();
             let mut active: Vec<(u64, usize, usize)> = vec![];
+            let before = contended;
             for (s, e, t, cell) in spans {
                 active.retain(|(ae, _, _)| *ae > s);
                 if active.iter().any(|(_, at, ac)| *at != t && *ac == cell) {
                     contended += 1;
                 }
                 active.push((e, t, cell));
+            }
+            if contended > before {
+                contended_histories += 1;
             }
         }
         // --- Trace_Conc input: header, then start/write/end events merged by sequence number
@@ -940,7 +946,7 @@ fn record(args: &[String]) -> Value {
     lin.flush().unwrap();
     set_table(&mut rng, 0);
     json!({"histories": h, "events": n_events, "calls": n_calls, "writes": n_writes, "panics": n_panics,
-        "contended_calls": contended, "kinds": kinds, "deadlock": deadlock, "samples": samples,
+        "contended_calls": contended, "contended_histories": contended_histories, "kinds": kinds, "deadlock": deadlock, "samples": samples,
         "perturb_hits": HOOK_HITS.load(Ordering::Relaxed)})
 }
 
